@@ -10,6 +10,46 @@ import time
 
 import z3
 
+# z3 can spin inside recursive-function propagation without looking at its wall-clock timeout; the resource limit
+# is honoured there (and is deterministic, so verdicts do not depend on machine load)
+RLIMIT_PER_MS = 1500
+
+# ... and some checks honour neither: a watchdog thread interrupts the context when a check overruns its timeout
+# (ctypes releases the GIL during the call); the interrupted check answers `unknown`.
+import threading as _threading
+
+_orig_set, _orig_check = z3.Solver.set, z3.Solver.check
+
+
+def _set(self, *args, **kw):
+    if len(args) == 2 and args[0] == "timeout":
+        self._pyvc_timeout_ms = int(args[1])
+    return _orig_set(self, *args, **kw)
+
+
+def _check(self, *assumptions):
+    ms = getattr(self, "_pyvc_timeout_ms", 30000)
+    fired = []
+
+    def fire():
+        fired.append(1)
+        self.ctx.interrupt()
+    t = _threading.Timer(ms / 1000.0 * 1.5 + 0.5, fire)
+    t.daemon = True
+    t.start()
+    try:
+        r = _orig_check(self, *assumptions)
+    except z3.Z3Exception:
+        if not fired:
+            raise
+        r = z3.unknown
+    finally:
+        t.cancel()
+    return r
+
+
+z3.Solver.set, z3.Solver.check = _set, _check
+
 from . import vals as V
 
 
@@ -74,6 +114,7 @@ class Path:
         # theory_recfun::propagate, outside the reach of the timeout
         s = z3.Solver()
         s.set("timeout", self.engine.feas_timeout_ms)
+        s.set("rlimit", RLIMIT_PER_MS * (self.engine.feas_timeout_ms))
         from . import specfun
         terms, axioms = specfun.defuel(list(self.pc) + [c], 1)
         s.add(*terms)
@@ -101,6 +142,7 @@ class Path:
         if self._solver is None:
             self._solver = z3.Solver()
             self._solver.set("timeout", self.engine.feas_timeout_ms)
+            self._solver.set("rlimit", RLIMIT_PER_MS * self.engine.feas_timeout_ms)
             self._synced = 0
         while self._synced < len(self.pc):
             self._solver.add(self.pc[self._synced])
@@ -218,6 +260,7 @@ def _discharge1(ob, timeout_ms=10000):
             terms, axioms = specfun.defuel(list(ob.pc) + [z3.Not(ob.goal)], fuel)
             s = z3.Solver()
             s.set("timeout", max(timeout_ms // 2, 2000))
+            s.set("rlimit", RLIMIT_PER_MS * (max(timeout_ms // 2, 2000)))
             s.add(*terms)
             s.add(*axioms)
             r = s.check()
@@ -248,6 +291,7 @@ def _discharge1(ob, timeout_ms=10000):
     for attempt, seed in enumerate((0, 7, 23)):
         s = z3.Solver()
         s.set("timeout", timeout_ms if attempt == 0 else max(timeout_ms // 2, 2000))
+        s.set("rlimit", RLIMIT_PER_MS * (timeout_ms if attempt == 0 else max(timeout_ms // 2, 2000)))
         if seed:
             s.set("random_seed", seed)
         s.add(*ob.pc)
